@@ -228,6 +228,127 @@ func (p *Prog) resolveRenames() {
 		renamedTo[newName] = olds[0]
 		p.funcs[olds[0]] = news[0]
 	}
+	// second pass: a reference function that is gone while exactly one new function of
+	// the same package carries its simple name (a method turned into a plain function or
+	// moved to another receiver, a parameter added or dropped) is the same code under a
+	// new signature; parameter names then resolve by name, not by position
+	byBase := map[string][]*ssa.Function{}
+	for name, fn := range p.funcs {
+		if _, known := ref[name]; known || !p.InP(fn) {
+			continue
+		}
+		if _, aliased := renamedTo[name]; aliased {
+			continue
+		}
+		byBase[pkgAndBase(name)] = append(byBase[pkgAndBase(name)], fn)
+	}
+	goneByBase := map[string][]string{}
+	for name := range ref {
+		if _, ok := p.funcs[name]; !ok {
+			goneByBase[pkgAndBase(name)] = append(goneByBase[pkgAndBase(name)], name)
+		}
+	}
+	for k, olds := range goneByBase {
+		news := byBase[k]
+		if k == "" || len(olds) != 1 || len(news) != 1 {
+			continue
+		}
+		renamedTo[shortName(news[0].String())] = olds[0]
+		p.funcs[olds[0]] = news[0]
+	}
+	// third pass: renamed *and* re-parameterised.  A reference function that is gone
+	// while exactly one unmatched new function of the same package has the same result
+	// types and is called from exactly the functions that used to call the old one
+	refCallers := loadAnchorCallers()
+	if len(refCallers) == 0 {
+		return
+	}
+	var gone []string
+	for name := range ref {
+		if _, ok := p.funcs[name]; !ok && len(refCallers[name]) > 0 {
+			gone = append(gone, name)
+		}
+	}
+	if len(gone) == 0 {
+		return
+	}
+	sort.Strings(gone)
+	nowCallers := staticCallers(p)
+	results := func(sig string) string {
+		if i := strings.LastIndex(sig, " ("); i >= 0 {
+			return sig[i:]
+		}
+		return sig
+	}
+	pkgOf := func(name string) string {
+		k := pkgAndBase(name)
+		if i := strings.IndexByte(k, '|'); i >= 0 {
+			return k[:i]
+		}
+		return ""
+	}
+	for _, old := range gone {
+		var cands []*ssa.Function
+		for name, fn := range p.funcs {
+			if _, known := ref[name]; known || !p.InP(fn) || fn.Parent() != nil {
+				continue
+			}
+			if _, aliased := renamedTo[name]; aliased {
+				continue
+			}
+			if pkgOf(name) != pkgOf(old) || results(funcSig(fn)) != results(ref[old]) {
+				continue
+			}
+			cs := nowCallers[name]
+			if len(cs) != len(refCallers[old]) {
+				continue
+			}
+			same := true
+			want := map[string]bool{}
+			for _, c := range refCallers[old] {
+				want[c] = true
+			}
+			for _, c := range cs {
+				if !want[canonName(c)] {
+					same = false
+				}
+			}
+			if same {
+				cands = append(cands, fn)
+			}
+		}
+		if len(cands) == 1 {
+			renamedTo[shortName(cands[0].String())] = old
+			p.funcs[old] = cands[0]
+		}
+	}
+}
+
+// pkgAndBase splits a short function name into "pkg|simple name":
+// "(*ls.DB).sync" and "ls.sync" both give "ls|sync".
+func pkgAndBase(name string) string {
+	if strings.ContainsAny(name, "$[") {
+		return ""
+	}
+	s := strings.TrimPrefix(name, "(")
+	s = strings.TrimPrefix(s, "*")
+	i := strings.LastIndexByte(s, '.')
+	if i < 0 {
+		return ""
+	}
+	base := s[i+1:]
+	rest := s[:i]
+	if j := strings.IndexByte(rest, ')'); j >= 0 {
+		rest = rest[:j]
+	}
+	// rest is "pkg.Type" or "pkg"
+	pkg := rest
+	if strings.HasPrefix(name, "(") {
+		if j := strings.LastIndexByte(rest, '.'); j >= 0 {
+			pkg = rest[:j]
+		}
+	}
+	return pkg + "|" + base
 }
 
 // canonName applies the rename aliases to a short function name (closures keep their $N suffix).
